@@ -386,7 +386,7 @@ class Polyline2D(Base2DIn2D):
 
     def __key(self):
         """A tuple based on the object properties, useful for hashing."""
-        return tuple(hash(pt) for pt in self._vertices) + (self._interpolated,)
+        return tuple(self._vertices) + (self._interpolated,)
 
     def __hash__(self):
         return hash(self.__key())
